@@ -12,8 +12,8 @@ Proof. exact flag_watchers_flags. Qed.
 Print Assumptions C09_signal_flags_watchers.
 
 (* ... and a flagged connection's EXEC replies null and has no effect *)
-Theorem C09_flagged_exec_aborts : forall c args now s b q,
-  c_prepare (get_conn c s) = true -> c_error (get_conn c s) = false -> c_queue (get_conn c s) = b :: q ->
+Theorem C09_flagged_exec_aborts : forall c args now s,
+  c_prepare (get_conn c s) = true -> c_error (get_conn c s) = false ->
   existsb (fun kv => snd kv) (c_watch (get_conn c s)) = true ->
   exists s', serve c n_EXEC args now s = Some (s', [WNullBulk]) /\ s_db s' = s_db s /\ get_conn c s' = conn_new.
 Proof. exact exec_watch_abort. Qed.
